@@ -275,6 +275,109 @@ def check_directed_swap(ctx, res: Result):
         res.add("P-SWAP", f, norm(node)[:120], "rebuild", st, "" if st == "ok" else "the final hyperedges are not rebuilt as (source, target) from the swapped lists", loc(v.fi, node))
 
 
+def _index_store(n):
+    """`X[X.index(a)] = b`: (X text, a, b) or None"""
+    if isinstance(n, ast.Assign) and len(n.targets) == 1 and isinstance(n.targets[0], ast.Subscript):
+        t = n.targets[0]
+        sl = t.slice
+        if isinstance(sl, ast.Call) and isinstance(sl.func, ast.Attribute) and sl.func.attr == "index" and norm(sl.func.value) == norm(t.value):
+            return norm(t.value)
+    return None
+
+
+def check_swap_atomic(ctx, res: Result, relpath="hypergraphx/generation/directed_configuration_model.py"):
+    """P-SWAPATOMIC: a swap step replaces one node in each of two sets.  Once the first replacement has been done the second is
+    done on every path to the end of the step: a second half that can still be refused (a conditional replacement, a helper
+    that declines) leaves one node with a slot more and one with a slot less - a degree changes."""
+    files = {relpath}
+    mods = [m for m in ctx.prog.modules.values() if m.relpath in files]
+    for m in list(mods):
+        for imp in m.imports.values():
+            if imp[0] == "symbol" and imp[1] in ctx.prog.modules and imp[1].split(".")[-1].startswith("_") and imp[1].rsplit(".", 1)[0] == m.name.rsplit(".", 1)[0]:
+                mods.append(ctx.prog.modules[imp[1]])
+    fis = [fi for fi in ctx.prog.functions.values() if fi.module in mods and fi.cls is None]
+    # helpers that perform an index-store on one of their parameters: 'must' (on every normal path) / 'may'
+    summary = {}
+    for fi in fis:
+        v = ctx.view(fi)
+        pn = {a.arg for a in fi.params}
+        stores = [n for n in walk_no_nested(fi.node) if _index_store(n) in pn]
+        if not stores:
+            continue
+        ids = {v.cfg_id(n) for n in stores} - {None}
+        must = not v.cfg.reaches_without(v.cfg.entry, v.cfg.exit, ids)
+        # does the helper report what it did?  True is returned only after a store, False / None only without one
+        rets = [n for n in walk_no_nested(fi.node) if isinstance(n, ast.Return)]
+        flag = bool(rets)
+        for r in rets:
+            rid = v.cfg_id(r)
+            val = r.value.value if isinstance(r.value, ast.Constant) else ("?" if r.value is not None else None)
+            after = rid is not None and any(v.cfg.reachable(i, rid) for i in ids)
+            avoid = rid is not None and v.cfg.reaches_without(v.cfg.entry, rid, ids)
+            if val is True and avoid:
+                flag = False
+            elif val in (False, None) and after and not avoid:
+                flag = False
+            elif val == "?":
+                flag = False
+        summary[fi.qualname] = ("must" if must else "may", flag and not must)
+    n_units = 0
+    for fi in fis:
+        v = ctx.view(fi)
+        events = []  # (cfg id, node, kind, flag)
+        for n in walk_no_nested(fi.node):
+            if _index_store(n) is not None:
+                events.append((v.cfg_id(n), n, "must", False))
+            elif isinstance(n, ast.Call):
+                for c in ctx.callees(fi, n):
+                    if c.qualname in summary and c is not fi:
+                        events.append((v.cfg_id(n), n, *summary[c.qualname]))
+        events = [e for e in events if e[0] is not None]
+        if len(events) < 2:
+            continue
+        # group by innermost enclosing loop (a step is one iteration); outside loops: the function body
+        groups = {}
+        for e in events:
+            lp = v.enclosing(e[1], (ast.For, ast.While))
+            groups.setdefault(id(lp) if lp is not None else 0, (lp, []))[1].append(e)
+        for lp, evs in groups.values():
+            if len(evs) < 2:
+                continue
+            n_units += 1
+            end = v.cfg.exit if lp is None else (v.cfg.by_ast[id(lp)] if isinstance(lp, ast.For) else v.cfg.by_ast[id(lp.test)])
+            firsts = [e for e in evs if not any(o is not e and o[0] != e[0] and v.cfg.reaches_without(o[0], e[0], {end}) for o in evs)]
+            for s1 in firsts:
+                others = [o for o in evs if o is not s1]
+                must_ids = {o[0] for o in others if o[2] == "must"}
+                starts = [s1[0]]
+                if s1[2] == "may" and s1[3]:
+                    # `if helper(...):` - only the True edge is a path on which the first half was done
+                    node = v.cfg.nodes.get(s1[0]) if hasattr(v.cfg, "nodes") else None
+                    succ_t = v.cfg.succ(s1[0], "T")
+                    if succ_t and v.cfg.succ(s1[0], "F"):
+                        starts = succ_t
+                        if any(x in must_ids for x in starts):
+                            res.ok("P-SWAPATOMIC", fi.short, norm(s1[1]), "second-half", loc(fi, s1[1]))
+                            continue
+                elif s1[2] == "may":
+                    res.unknown("P-SWAPATOMIC", fi.short, norm(s1[1]), "second-half", "the first replacement is done by a helper that may decline and whose report is not used as a branch condition", loc(fi, s1[1]))
+                    continue
+                escapes = any(v.cfg.reaches_without(st, end, must_ids) or (lp is not None and v.cfg.reaches_without(st, v.cfg.exit, must_ids | {end})) for st in starts)
+                if not escapes:
+                    res.ok("P-SWAPATOMIC", fi.short, norm(s1[1]), "second-half", loc(fi, s1[1]))
+                    continue
+                may_after = [o for o in others if o[2] == "may" and any(st == o[0] or v.cfg.reaches_without(st, o[0], {end}) for st in starts)]
+                cond_after = [o for o in others if o[2] == "must" and any(st == o[0] or v.cfg.reaches_without(st, o[0], {end}) for st in starts)]
+                if may_after or cond_after:
+                    o = (may_after or cond_after)[0]
+                    why = "is done by a helper that can decline" if may_after else "is conditional"
+                    res.violation("P-SWAPATOMIC", fi.short, norm(o[1]), "second-half", f"after the first replacement `{norm(s1[1])[:80]}` of a swap step, the second one {why}: when it is skipped one node has gained a slot and the other lost one (a degree changes)", loc(fi, o[1]))
+                else:
+                    res.unknown("P-SWAPATOMIC", fi.short, norm(s1[1]), "second-half", "no second replacement found on the paths after the first", loc(fi, s1[1]))
+    if n_units == 0:
+        res.unknown("P-SWAPATOMIC", relpath, "swap step", "second-half", "no swap step made of two replacements was recognised", relpath)
+
+
 def run(ctx):
     res = Result("C13")
     res.rules.update({k: KIND_RULES[k] for k in ("C-SIG", "K-ARG", "K-SIZE")})
@@ -303,5 +406,8 @@ def run(ctx):
         check_complement(ctx, res)
     with res.guard("check_directed_swapctx, res"):
         check_directed_swap(ctx, res)
+    res.rules["P-SWAPATOMIC"] = "directed model: once the first node replacement of a swap step is done, the second is done on every path (no half swap)"
+    with res.guard("check_swap_atomic"):
+        check_swap_atomic(ctx, res)
     res.assumptions += ["the vertex-labelled sampler is outside the property's quantifier (label in {'edge','stub'})", "an unrecognised rewrite of these functions is an ANALYSIS-ERROR (exit 2), not a violation"]
     return res
